@@ -208,6 +208,12 @@ def rule_listcs(ctx, rep):
     n0 = len(rep.results)
     c03.rule_handover(ctx, rep)
     keep = [r for r in rep.results[n0:] if r["rule"].startswith("C04.")]
+    for r in rep.results[n0:]:
+        if any(k in r["instance"] for k in ("wake-default", ".qlen", "splice-under-mutex", ".splice")) and not r["rule"].startswith("C04."):
+            r = dict(r)
+            r["rule"] = "C04.handover"
+            r["key"] = r["key"].replace("C03.handover", "C04.handover")
+            keep.append(r)
     del rep.results[n0:]
     rep.results += keep
     if not keep:
